@@ -103,6 +103,14 @@ def _opt(v):
     return None if v == NONE_I else v
 
 
+class StrSub(str):
+    pass
+
+
+class ByteArraySub(bytearray):
+    pass
+
+
 def build_call(L, tool, par, S, F, rec):
     """Return a zero-argument function performing the library call for this case."""
     if tool == "zip":
@@ -159,7 +167,8 @@ def build_call(L, tool, par, S, F, rec):
         fn = getattr(L, tool)
         return lambda: fn(S[0])
     if tool == "sum":
-        start = 0 if par["startv"] == "zero" else "" if par["startv"] == "str" else StartObj("startobj", (), rec)
+        start = {"zero": lambda: 0, "str": lambda: "", "strsub": lambda: StrSub(""), "bytes": lambda: b"",
+                 "bytearraysub": lambda: ByteArraySub(b"")}.get(par["startv"], lambda: StartObj("startobj", (), rec))()
         rec.start_obj = start
         return lambda: L.sum(S[0], start)
     if tool == "reduce":
@@ -247,7 +256,7 @@ def fault_plan(case):
 
 class Obs:
     __slots__ = ("cancel_tag", "closes", "nsusp_close", "deferred_closes", "log", "ending", "released", "states", "acct", "mutations", "uses_after_fault",
-                 "exc_same", "exc_type", "nsusp", "started", "handles", "close_error", "fault_fired")
+                 "exc_same", "exc_type", "nsusp", "started", "handles", "close_error", "fault_fired", "invoked_extra")
 
     def brief(self):
         return {"log": self.log, "ending": self.ending, "released": self.released,
@@ -299,11 +308,14 @@ def execute(case, L, *, sync=False, flav=None, susp=0, fault_kind="exc", cancel_
     rec.susp = 0 if sync else susp
     rec.first_item = []
     rec.close_susp = 0
+    from . import instruments as _ins  # noqa: PLC0415
+    _ins.set_mutation_sink(rec.mutations)
     rec.fault = fault_plan(case)
     if rec.fault is not None:
         rec.fault_exc = {"exc": InjectedError, "typeerr": InjectedTypeError, "cancel": Cancelled}[fault_kind]("injected")
     src_flav = flav["src"]
     S, H = [], []
+    list_snap, list_edited = {}, set()     # the caller's lists as handed over / those the harness edited itself
     if tool == "apply":
         rec.apply_args = ([Aw(rec, Item(1, p + 1, k)) for p, k in enumerate(data[0])],
                           {f"k{p + 1}": Aw(rec, Item(2, p + 1, k)) for p, k in enumerate(data[1])})
@@ -317,6 +329,8 @@ def execute(case, L, *, sync=False, flav=None, susp=0, fault_kind="exc", cancel_
         if tool == "await_each" or (tool == "any_iter" and par["aw"]):
             items_ = [Aw(rec, x) for x in items_]
         obj, h = make_source(fl, rec, i, items_)
+        if fl == "list":
+            list_snap[i] = list(obj)
         S.append(obj)
         H.append(h)
     if tool == "chain" and par.get("outer"):
@@ -431,6 +445,7 @@ def execute(case, L, *, sync=False, flav=None, susp=0, fault_kind="exc", cancel_
                 for i_, at in stop_step.items():
                     if at == step_ - 1 and not sync and i_ <= len(S) and type(S[i_ - 1]).__name__ == "ListSource":
                         S[i_ - 1][:] = [Item(i_, 90 + j_, 1) for j_ in range(2)]
+                        list_edited.add(i_)
                 rec.ev(ev="next")
                 o.started = True
                 if construct_exc is not None:
@@ -481,7 +496,15 @@ def execute(case, L, *, sync=False, flav=None, susp=0, fault_kind="exc", cancel_
                         o.close_error = repr(r[1])
     finally:
         pass
+    for i_, snap in list_snap.items():     # a tool reads the caller's list, it never rearranges or empties it
+        if i_ not in list_edited and (len(S[i_ - 1]) != len(snap) or any(x is not y for x, y in zip(S[i_ - 1], snap))):
+            rec.mutations.append("input-list-changed")
     o.log = list(rec.log)
+    n_awaited = {}
+    for e_ in rec.log:
+        if e_["ev"] == "call":
+            n_awaited[e_["f"]] = n_awaited.get(e_["f"], 0) + 1
+    o.invoked_extra = {f: n - n_awaited.get(f, 0) for f, n in rec.invoked.items() if n != n_awaited.get(f, 0)}
     o.released = {h.idx if hasattr(h, "idx") else j: bool(h.released) for j, h in enumerate(H, start=1)}
     o.states = {getattr(h, "idx", j): getattr(h, "state", "?") for j, h in enumerate(H, start=1)}
     o.acct = rec.acct
